@@ -185,10 +185,11 @@ def step (_ : Unit) (f : List String) : Unit × String :=
   | ["pu64", a] => (match parseU64 (hex! a) with | some v => s!"ok {v}" | none => "err")
   | ["boid", t, n] => (match createBuyOrderId (atype! t) (nat! n) with | some b => toHexD b | none => "panic")
   | ["bovalid", a] =>
+      let v := toString (isValidBuyOrderId (hex! a))
       (match parseBuyOrderId (hex! a) with
-       | none => "false invalid invalid"
-       | some (.name, _) => "true pass mismatch"
-       | some (.alias, _) => "true mismatch pass")
+       | none => v ++ " invalid invalid"
+       | some (.name, _) => v ++ " pass mismatch"
+       | some (.alias, _) => v ++ " mismatch pass")
   | ["irodenom", r] => toHexD (Gen.Keys.iRODenom (hex! r))
   | ["irofrom", d] => optHex (rollappIDFromIRODenom (hex! d))
   | ["plankey", n] => toHexD (Gen.Keys.planKey (decStr (nat! n)))
